@@ -23,6 +23,16 @@ CLAIMED = {
    technique='static analysis: two-edge CFG cut (exemption predicate false OR IsPayable true) over credit sites found by account provenance; return classification of the exemption predicate; guard cuts for metachain/self/length; field-write ownership',
    text='Every credit of a non-sender account below the three transfer entry points is cut by the union of the must-verify-false edge (called with the function\'s own minimum argument count) and the IsPayable(address of the credited account)-true edge; the exemption predicate waives only under the four stated exemptions; metachain/self/length guards cut all sender-side effects; the payable handler is written only by constructor (refusing default) and SetPayableHandler.',
    note='Trusted: go/types + go/ssa; the protocol argument layout of the three transfer functions; A-presence.'),
+ 'C10': dict(
+   level='other', design='DESIGN.md §5 C10',
+   technique='static analysis: string-shape flattening of emitted data (through loops and helper parameters) against the grammar Head(\"@\" hex)*; constant/guard agreement; extraction and comparison of argument-position tables (linear forms a*i+b*n+c) of ledger and parser per role and execution side',
+   text='Every emitted data string has the shape the call-arguments parser inverts, with the parsers\' separator constant; constant heads are the emitter\'s own protocol name; minimum-count constants, stride and the ledger\'s effective guards agree; and for each of the three transfer functions and both sides the positions the ledger uses for token, nonce/count, value/payload, destination, attached function and arguments equal the positions the parser binds to its exported fields. Numeric equality of parsed values and ledger diffs is not decided.',
+   note='Trusted: go/types + go/ssa; hex encode/decode are inverse; A-protomsg.'),
+ 'C14': dict(
+   level='other', design='DESIGN.md §5 C14',
+   technique='static analysis: wire-table extraction from struct tags, the .proto file and the AST of the generated marshaller/unmarshaller/Size and comparison; guard/return classification of the hand-written amount caster; index-bound entailment',
+   text='Table agreement only: tags = .proto = marshaller tag bytes (descending order, attributed per field) = unmarshaller (case, wire type, field) = Size contributions for the three messages; Size/MarshalTo length tables agree; sign byte 1 iff Sign()<0; magnitude at buf[1:] on both sides; reader negates exactly under 1 and rejects other sign bytes; caster index sites in range. The round trip, canonicity over all values and totality of the generated decoder are not decided (no protoc to regenerate, values are outside static reach).',
+   note='Trusted: go/types, go/ast of the generated file, go/ssa; the .proto file as the documented format; one listed exception (MarshalTo nil case: buffer sized by Size).'),
  'C11': dict(
    level='other', design='DESIGN.md §5 C11',
    technique='static analysis: linear entailment of index/slice bounds from CFG edge facts, validator summaries under caller assumptions and call-site preconditions; taint of decoded counts; nil-ness cuts for optional fields and absent accounts; return-shape classification',
